@@ -21,10 +21,14 @@ RULE = ('exhaustive: breadth-first exploration of the flag states the implementa
         'every sweep reads everything twice, the second time in reverse order; '
         'random histories (length <= 16 quick / 40 thorough) on three kinds of record (random, shipped motion slice, integer ramp) with all comparisons at every step; '
         'tolerances: 0 for repeated reads and untouched sources, 2^-40 relative for derived quantities against a fresh object, 1e-9 for mutator results (LAPACK inside); '
-        'non-trivial = some cache flag was set before the last operation (exhaustive) / the history contains read -> change -> read (random)')
+        'non-trivial = some cache flag was set before the last operation (exhaustive) / the history contains read -> change -> read (random); '
+        'static: eqsig/single.py re-translated into per-method cache-event summaries (every method x every flag state) and re-proved equal to the summaries of the model (Prop_C04_events)')
 TRUSTED = [
     'Coq 8.16.1 kernel + vm_compute; primitive binary64 floats are used only as carriers of literals (hex literal -> Prim2SF -> exact rational), no float arithmetic',
-    'hand-written model coq/model/M_cache.v (operation programs read off eqsig/single.py); tie = flag-trace correspondence of this run (model/K_C04.v)',
+    'hand-written model coq/model/M_cache.v (operation programs read off eqsig/single.py); tie = flag-trace correspondence of this run (model/K_C04.v) '
+    'and, statically, translator/py2coq_cache_events.py (Python ast -> coq/gen/Gen_cache_events.v, fail-closed, regenerated on this run): per method and class the '
+    'flag effects / rewritten sources / cached reads / returned slot / recipes must equal those read off the model (props/Prop_C04_events.v, finite enumeration over all flag states); '
+    'trusted there: the attribute tables of the translator, its reading of Python name resolution, and that functions of other modules do not write into array arguments',
     'numeric functions, value transformers and setting transformers are uninterpreted in the theorems (their meaning is C03/C06/C07/C08/C17)',
     'contract inplace_keeps_length on the in-place mutators (validated here by npts/time comparisons with a fresh object)',
     'operations outside the alphabet (parameterised generators xi=, band=, p2_plus=, n=, trap=False; calls that raise) are not covered',
@@ -484,12 +488,41 @@ def random_histories(rep, rng, kind, cases, count, maxlen):
         cases.append(c)
 
 
+def regen_events():
+    """re-translate eqsig/single.py into coq/gen/Gen_cache_events.v (fail closed): the `*_are_source` theorems of
+    Prop_C04_events are then re-proved against the code that is in the repo now"""
+    import os, sys
+    try:
+        sys.path.insert(0, os.path.join(core.VERIF, 'translator'))
+        import py2coq_cache_events
+        py2coq_cache_events.regenerate(repo=core.REPO)
+    except Exception as e:  # noqa
+        return 'py2coq_cache_events: %s: %s' % (type(e).__name__, e)
+    return None
+
+
 def run(rep, rng, tier):
     warnings.simplefilter('ignore')
     np.seterr(all='ignore')
     import time
     t0 = time.time()
     rep.prove('Prop_C04', targets=['props/Prop_C04.vo', 'model/K_C04.vo'])
+    # source-text tie: the per-method cache-event summaries translated from eqsig/single.py must be the model's
+    ev_err = regen_events()
+    ev_ok = rep.prove('Prop_C04_events', gen_failed=ev_err)
+    if ev_err is not None:
+        print('C04: cache-event translator refused: %s' % ev_err, flush=True)
+    elif not ev_ok:
+        # name the operations whose translated summary differs from the model (the definitions compile even when the theorem fails)
+        okb, _ = core.make(['model/K_C04_events.vo'])
+        if okb:
+            d = core.coq_eval('model.K_C04_events', '(map (fun x => fst (fst x)) failing_acc, map (fun x => fst (fst x)) failing_sig)',
+                              extra_imports='From EQ Require Import model.M_cache model.K_C04 model.M_cache_events gen.Gen_cache_events.\n')
+            rep.extra['event_summaries_differ'] = d
+            rep.extra['event_summaries_differ_detail'] = core.coq_eval(
+                'model.K_C04_events', '(failing_acc, failing_sig)',
+                extra_imports='From EQ Require Import model.M_cache model.K_C04 model.M_cache_events gen.Gen_cache_events.\n')[:6000]
+            print('C04: translated cache-event summaries differ from model/M_cache.v for (AccSignal, Signal): %s' % d[:1500], flush=True)
     t1 = time.time()
     cases, cover = [], []
     for kind in ('A', 'S'):
